@@ -1,6 +1,7 @@
 package c18
 
 import (
+	"encoding/json"
 	"fmt"
 	"math/big"
 	"math/rand"
@@ -310,7 +311,9 @@ func (m *mon) settle(opKind, outcome string, want *obs, op any) *obs {
 			fmt.Sprintf("%s (%s): observed state differs from the ledger's prediction in %s (first: %s want %s got %s)", opKind, outcome, fields(d), d[0].Key, d[0].Want, d[0].Got), op, d, "")
 	}
 	m.last = post
-	m.invariants(post, op)
+	if !m.dead {
+		m.invariants(post, op)
+	}
 	return post
 }
 
@@ -385,7 +388,8 @@ func (m *mon) distinct(op, class, outcome, extra string) {
 
 func (m *mon) unexpectedReject(op any, log string) {
 	m.rec.Count("unexpected_rejects", 1)
-	m.rec.Inconclusive(fmt.Sprintf("a well-formed operation the ledger expects to succeed was rejected: %v: %s", op, log))
+	b, _ := json.Marshal(op)
+	m.rec.Inconclusive(fmt.Sprintf("a well-formed operation the ledger expects to succeed was rejected: %s: %s", b, trunc(log)))
 }
 
 func ok(b bool) string {
@@ -816,9 +820,12 @@ func (m *mon) randomFunders() []string {
 func (m *mon) randomContracts() map[string]string {
 	r := m.r
 	cs := map[string]string{}
-	for _, ch := range m.w.Chains {
+	for i, ch := range m.w.Chains {
 		if r.Intn(5) > 0 {
 			cs[ch] = m.contracts[r.Intn(len(m.contracts))]
+			if i > 0 && r.Intn(2) == 0 {
+				cs[ch] = m.contracts[1] // more often than not the chains have different sale contracts
+			}
 		}
 	}
 	return cs
@@ -886,8 +893,8 @@ func (m *mon) completeConfig() {
 	}
 	if len(m.L.cfg.Contracts) < len(m.w.Chains) {
 		cs := map[string]string{}
-		for _, ch := range m.w.Chains {
-			cs[ch] = m.contracts[m.r.Intn(len(m.contracts))]
+		for i, ch := range m.w.Chains {
+			cs[ch] = m.contracts[i%len(m.contracts)]
 		}
 		if err := m.govDirect(m.contractsContent(cs)); err != nil {
 			m.rec.Inconclusive("gov: " + err.Error())
